@@ -4,3 +4,4 @@ import GSProofs.C18
 import GSProofs.C08
 import GSProofs.C19
 import GSProofs.C03
+import GSProofs.C22
